@@ -328,6 +328,14 @@ class GC(FileStorageFormatter):
                         # The object was garbage at the pack time and
                         # comes back: what it refers to comes back, too.
                         extra_roots.append(dh.back)
+                        # It may have been linked again before this
+                        # record was written (undo): then it shows the
+                        # revision that was current at the pack time.
+                        cur = self.oid2curpos.get(dh.oid)
+                        if cur is not None and cur != dh.back:
+                            self.reach_ex.setdefault(
+                                dh.oid, []).append(cur)
+                            extra_roots.append(cur)
 
                 pos += dh.recordlen()
 
